@@ -213,15 +213,16 @@ func (l *link) status() string {
 
 // rawMode says how the raw runtime peer behaves.
 type rawMode struct {
-	accept     bool          // answer RegisterPlugin with success (otherwise with an error)
-	closeAfter bool          // close the connection `delay` after answering
-	delay      time.Duration //
-	silent     bool          // never answer RegisterPlugin at all, keep the connection open
-	configure  bool          // after registering the plugin, configure it (and then stay up)
-	regMs      int64         // ConfigureRequest.RegistrationTimeout
-	reqMs      int64         // ConfigureRequest.RequestTimeout
-	doSync     bool          // send an (empty) Synchronize after Configure
-	updSilent  bool          // never answer the plugin's UpdateContainers (and do not close)
+	accept        bool          // answer RegisterPlugin with success (otherwise with an error)
+	closeAfter    bool          // close the connection `delay` after answering
+	delay         time.Duration //
+	silent        bool          // never answer RegisterPlugin at all, keep the connection open
+	configure     bool          // after registering the plugin, configure it (and then stay up)
+	regMs         int64         // ConfigureRequest.RegistrationTimeout
+	reqMs         int64         // ConfigureRequest.RequestTimeout
+	doSync        bool          // send an (empty) Synchronize after Configure
+	updSilent     bool          // never answer the plugin's UpdateContainers (and do not close)
+	closeOnCfgErr bool          // close the connection when the plugin answers Configure with an error (otherwise keep it)
 }
 
 // refuser is a raw runtime peer (multiplexer + ttRPC server and client, built the way
@@ -282,6 +283,9 @@ func (r *refuser) handshake() {
 	}
 	if err != nil {
 		r.cfgErr.Store(err.Error())
+		if r.mode.closeOnCfgErr {
+			r.close()
+		}
 	}
 }
 
